@@ -12,7 +12,7 @@ env.import_pyjelly()
 def main(tier: str) -> int:
     run = report.Run("C08", "model_checking", tier)
     cfg = ("INIT HInit\nNEXT HNext\nCONSTANTS Delimited = TRUE FrameLens <- FL0 FirstRowLen = 2 CutAt <- NoCut Chunks <- AllChunks "
-           "PeekOnce = TRUE HistReads = 0 HMax = 300\nINVARIANT Detected\nINVARIANT SameLayout\nINVARIANT PrintHeader\nCHECK_DEADLOCK FALSE\n")
+           "PeekOnce = TRUE ReadChunk = 4 HistReads = 0 HMax = 300\nINVARIANT Detected\nINVARIANT SameLayout\nINVARIANT PrintHeader\nCHECK_DEADLOCK FALSE\n")
     r = tlc.run("MCFraming", cfg, workers=1, timeout=900)
     if r.violated or not r.ok:
         env.machinery_failure(f"C08: PyHint {r.violated or r.errors[:2]} -- the truth table in the MODEL misclassifies a header (prediction to be replayed)")
